@@ -28,6 +28,10 @@ RULE = (
     "([ndarray], [ndarray, Tensor], [generic], ...) run on every family; both stores alternate. "
     "root nn.Module+AutoSerialize objects (both MRO orders) x 9 fixed + seeded name sets over {2 sub-modules, 2 parameters, 2 buffers, 6 plain attributes incl. a nested "
     "object} x type lists x both stores; Ptychography.save skip forms and shared skip lists. "
+    "widening: store(zip/dir/auto) x mode(w/o onto an existing object) x compression(None/0/9) x skip form(list/tuple/bare) on small graphs; one sub-object / array "
+    "reachable under two names and one level down; arrays / tensors in non-contiguous, read-only, expanded layouts as attribute values; an object with 1100 attributes "
+    "(367 skipped) and a 55-level chain with the same names at every level; neutral calls (print_file, print_tree, deepcopy, unrelated loads) between the steps; a share of "
+    "cases under torch.no_grad / inference_mode / set_grad_enabled(False) / default dtype float64 / np.errstate(raise) / deterministic algorithms. "
     "non-trivial = S or T removes >=1 attribute at object depth >=2 and >=1 attribute survives; distinct = (graph signature, S, T)"
 )
 ASSUMPTIONS = [
@@ -113,6 +117,23 @@ def plan(tier, seed):
         for jj in range(2 if tier == "quick" else len(ARRAYISH_TYPE_LISTS)):
             T = ARRAYISH_TYPE_LISTS[(fam + jj * 3 + seed) % len(ARRAYISH_TYPE_LISTS)]
             specs.append({"family": fam, "S": [POOL[(fam + jj) % 8]] if jj else [], "T": T, "S2": None, "store": "zip" if (fam + jj) % 2 else "dir"})
+    # option cross product on a small graph: store x mode x compression x skip form
+    cx = 0
+    for store in ("zip", "dir", "auto_zip", "auto_dir"):
+        for mode in ("w", "o"):
+            for comp in (None, 0, 9):
+                for form in ("list", "tuple", "bare"):
+                    cx += 1
+                    if tier == "quick" and (cx + seed) % 3:
+                        continue
+                    S = [POOL[cx % 8]] if form == "bare" else [POOL[cx % 8], POOL[(cx + 3) % 8], "payload"]
+                    specs.append({"family": 4 * (cx % 3), "S": S, "T": [] if form == "bare" else [["str"], ["ndarray"], []][cx % 3], "S2": None, "store": store.replace("auto_", ""),
+                                  "auto": store.startswith("auto"), "mode": mode, "compression": comp, "form": form, "scalar_skip": form == "bare", "cross": True})
+    # size thresholds: > 1000 attributes (a third of them skipped), > 50 levels with the same names at every level
+    for store in ("zip", "dir"):
+        specs.append({"family": "wide", "S": ["a%04d" % i for i in range(0, 1100, 3)] + ["arr07", "zz"], "T": ["str"], "S2": ["a0001", "arr08"], "store": store, "_must_run": tier == "quick"})
+        specs.append({"family": "deep", "S": ["b"], "T": [], "S2": ["payload"], "store": store, "_must_run": tier == "quick"})
+    specs.append({"family": "deep", "S": ["a", "payload"], "T": ["ndarray"], "S2": None, "store": "zip"})
     nrand = 260 if tier == "quick" else 900
     for r in range(nrand):
         fam = r % nfam
@@ -181,7 +202,11 @@ def _value(rng, sg, names):
     import numpy as np
     from pathlib import Path
 
-    c = int(rng.integers(24))
+    c = int(rng.integers(26))
+    if c == 24:
+        return sg.build_kind("arr:layout:" + ["transposed", "stride2", "readonly", "broadcast", "view_of_torch"][int(rng.integers(5))], rng)
+    if c == 25:
+        return sg.build_kind("tensor:layout:" + ["expanded", "permuted", "stride2", "from_numpy"][int(rng.integers(4))], rng)
     if c >= 20:
         return _np_scalar_without_json_form(rng, c - 20 + int(rng.integers(2)) * 4)
     if c == 0:
@@ -258,8 +283,53 @@ def _obj(rng, sg, depth, maxdepth, cls, hybrid=False):
 def build_graph(seed, family, sg):
     import numpy as np
 
+    if family == "wide":  # size threshold: > 1000 attributes on one object
+        rng = np.random.default_rng([int(seed), 14, 9])
+        w = sg.Node()
+        for i in range(1100):
+            setattr(w, "a%04d" % i, [i, float(i) + 0.5, "s%d" % i, None, np.int64(i)][i % 5])
+        for i in range(20):
+            setattr(w, "arr%02d" % i, np.full((2,), i))
+        w.child = sg.make_leaf(rng)
+        w.child.a0003 = "same name one level down"
+        return w
+    if family == "deep":  # size threshold: > 50 levels of attribute nesting, the same names at every level
+        rng = np.random.default_rng([int(seed), 14, 10])
+        o = sg.Leaf()
+        o.a, o.b = 0, "bottom"
+        for i in range(55):
+            q = [sg.Leaf, sg.Other, sg.Node][i % 3]()
+            q.c = o
+            q.a = i + 1
+            q.b = np.full((2,), i)
+            q.payload = [i, "x"]
+            o = q
+        return o
     rng = np.random.default_rng([int(seed), 14, 7, int(family)])
-    return _obj(rng, sg, 1, 3 if family % 4 else 4, sg.Node, hybrid=family % 3 == 2)
+    x = _obj(rng, sg, 1, 3 if family % 4 else 4, sg.Node, hybrid=family % 3 == 2)
+    if family % 4 == 1:
+        # one sub-object / array / list reachable under two attribute names (and one level down): skipping one name must leave the other
+        free = [nm for nm in POOL if nm not in vars(x)]
+        shared_obj = sg.make_leaf(rng)
+        shared_obj.payload = sg.make_array(rng, "int16", "1d")
+        shared_arr = sg.make_array(rng, "float32", "2d")
+        if len(free) >= 2:
+            setattr(x, free[0], shared_obj)
+            setattr(x, free[1], shared_obj)
+        x.shared_a = shared_arr
+        x.shared_b = shared_arr
+        for v in list(vars(x).values()):
+            if dq_is_plain_child(v):
+                v.shared_a = shared_arr
+                v.again = shared_obj
+                break
+    return x
+
+
+def dq_is_plain_child(v):
+    import torch
+
+    return getattr(type(v), "__autoserialize_marker__", None) is not None and not isinstance(v, torch.nn.Module)
 
 
 def hybrid_paths(o, dq, path="obj"):
@@ -607,13 +677,42 @@ def run_case(spec, idx, ctx):
     skip_arg = S + list(T)
     if spec.get("scalar_skip"):
         skip_arg = skip_arg[0]  # the API also accepts a single str / type
+    # options that must not interact with skipping: inferred store, overwrite mode onto an existing object, compression level
+    store_arg = "auto" if spec.get("auto") else store
+    comp = spec.get("compression", 4)
+    mode = spec.get("mode", "w")
+    from vf.props.c01 import _ProcessState
+
+    pstate = ["none", "both_no_grad", "both_inference", "grad_disabled", "default_float64", "np_errstate_raise", "deterministic_algorithms"][(idx // 6) % 7] if idx % 6 == 0 else "none"
+    ctx.count("process_state:" + pstate)
+    neutral = idx % 4 == 0
+    _ps = _ProcessState(pstate, "save")
+    _ps.__enter__()
     try:
-        x.save(p_plain, store=store)
+        if mode == "o":
+            old = sg.Other()
+            old.a, old.stale = "old object", [1, 2]
+            old.save(p_skip, store=store_arg)
+        x.save(p_plain, store=store_arg, compression_level=comp)
         # the same argument object is handed to save() and later to load(): neither may change it
         if isinstance(skip_arg, list) and idx % 2:
             skip_arg = tuple(skip_arg)
         arg_before = list(skip_arg) if isinstance(skip_arg, (list, tuple)) else skip_arg
-        x.save(p_skip, store=store, skip=skip_arg)
+        x.save(p_skip, store=store_arg, skip=skip_arg, mode=mode, compression_level=comp)
+        if neutral:
+            # neutral calls between the steps (printing, copying, an unrelated save / load) must not change what follows
+            import contextlib
+            import copy
+            import io
+
+            from quantem.core.io import print_file
+
+            with contextlib.redirect_stdout(io.StringIO()):
+                print_file(p_skip, depth=2)
+                x.print_tree(depth=2)
+                copy.deepcopy(x)
+                load(p_skip)
+                load(p_plain, skip=["payload"])
         ctx.check((list(skip_arg) if isinstance(skip_arg, (list, tuple)) else skip_arg) == arg_before, "skip_argument_mutated", lambda: "AutoSerialize.save changed its skip argument: %r -> %r" % (arg_before, skip_arg),
                   api="AutoSerialize.save", store=store, nested_kind="plain")
 
@@ -655,6 +754,7 @@ def run_case(spec, idx, ctx):
                 ctx.check(False, "skipped_name_reachable", "after %s-time skip=%s: %s still present" % (tag, sorted(names), sub[:4]), when=tag, store=store, object_depth=sub[0][0],
                           event="skipped_name_present", nested_kind=nk)
     finally:
+        _ps.__exit__(None, None, None)
         shutil.rmtree(base, ignore_errors=True)
     _finish(ctx, spec, x, exp1, rem1, S, Tn, S2, store)
 
